@@ -123,6 +123,12 @@ Definition eff_out (e : effective) : val :=
   L [I 1; IN (e_version e); IN (e_maxversion e); I (e_numconns e); L (map IN oc);
      IN (match oc with [] => 0 | _ => e_override e end)].
 
+(** (3 rpc tokens peers): buildNodes called directly *)
+Definition dec_bn (v : val) : cfg :=
+  {| c_backend := true; c_heartbeat := 0; c_idle := 1; c_numconns := 1; c_version := []; c_maxversion := [];
+     c_cls := []; c_override := []; c_rpc := vbool (nthv 1 v); c_tokens := vbool (nthv 2 v);
+     c_peers := map dec_peer (vL (nthv 3 v)) |}.
+
 Definition opt_out (o : option N) : val :=
   match o with Some v => L [I 1; IN v] | None => L [I 0; I 0] end.
 
@@ -130,6 +136,7 @@ Definition run_c20 (input : val) : val :=
   match vZ (nthv 0 input) with
   | 0%Z => opt_out (parse_version (vB (nthv 1 input)))
   | 1%Z => opt_out (parse_consistency (vB (nthv 1 input)))
+  | 3%Z => L [Ibool (build_nodes_ok (dec_bn input))]
   | _ =>
       match validate (dec_cfg input) with
       | None => L [I 0]
@@ -172,6 +179,7 @@ Definition holds_c20 (input output : val) : val :=
     match vZ (nthv 0 input) with
     | 0%Z => opt_out (doc_version (vB (nthv 1 input)))
     | 1%Z => opt_out (doc_consistency (vB (nthv 1 input)))
+    | 3%Z => L [Ibool (build_nodes_ok (dec_bn input))]
     | _ => match validate_doc (dec_cfg input) with
            | None => L [I 0]
            | Some e => eff_out e
@@ -181,5 +189,6 @@ Definition holds_c20 (input output : val) : val :=
   else match vZ (nthv 0 input) with
        | 0%Z => B (str "version-name:" ++ lower (vB (nthv 1 input)))
        | 1%Z => B (str "consistency-name:" ++ lower (vB (nthv 1 input)))
+       | 3%Z => B (str "build-nodes")
        | _ => B (str "run-config")
        end.
